@@ -111,6 +111,15 @@ static void fill_buf(rng_t* r, const bufspec_t* b, void* p, size_t bytes) {
     }
     case F_DBL: {
       double* x = p;
+      if (b->any_finite) {
+        // any finite double: exponent field uniform over its whole range (so tiny, huge and subnormal values are common)
+        for (size_t i = 0; i < bytes / 8; i++) {
+          uint64_t w = rng_u64(r);
+          if (((w >> 52) & 0x7FF) == 0x7FF) w &= ~(1ull << 62);
+          memcpy(&x[i], &w, 8);
+        }
+        break;
+      }
       for (size_t i = 0; i < bytes / 8; i++) x[i] = (rng_unit(r) * 2 - 1) * (double)(1u << (b->fillarg & 31));
       break;
     }
@@ -534,7 +543,7 @@ static void plan_dft_x(opplan_t* pl, rng_t* r, const env_t* e, int ntt) {
   uint64_t rs = rsz(r, 3), as = rsz(r, 3);
   pl->u[7] = (uint64_t)ntt;
   B_RAW(pl, R_OUT, F_NONE, 0, dft_bytes(e, ntt, rs), ntt ? 32 : 8);
-  B_ZV(pl, R_IN, F_I64, ntt ? 63 : 49, e->N, as, rsl(r, e->N));
+  B_ZV(pl, R_IN, F_I64, ntt ? 63 : 50, e->N, as, rsl(r, e->N));  // FFT64: the documented bound |x| < 2^50
   pl->u[0] = rs;
   SHAPE(pl, "%s", szc(rs, as));
 }
@@ -815,7 +824,9 @@ KCALL(znx_add_ref, znx_add_i64_ref(e->N, p[0], p[1], p[2])) KCALL(znx_add_avx, z
 KCALL(znx_sub_ref, znx_sub_i64_ref(e->N, p[0], p[1], p[2])) KCALL(znx_sub_avx, znx_sub_i64_avx(e->N, p[0], p[1], p[2]))
 KCALL(znx_neg_ref, znx_negate_i64_ref(e->N, p[0], p[1])) KCALL(znx_neg_avx, znx_negate_i64_avx(e->N, p[0], p[1]))
 KCALL(znx_copy_ref, znx_copy_i64_ref(e->N, p[0], p[1])) KCALL(znx_zero_ref, znx_zero_i64_ref(e->N, p[0]))
-KCALL(rnx_div_ref, rnx_divide_by_m_ref(e->N, 64.0, p[0], p[1])) KCALL(rnx_div_avx, rnx_divide_by_m_avx(e->N, 64.0, p[0], p[1]))
+// division by a power of two (m = 2^1..2^16 from the plan) on every finite double: exact up to gradual underflow in both kernels
+static void plan_k2d_div(opplan_t* pl, rng_t* r, const env_t* e) { B_RAW(pl, R_OUT, F_NONE, 0, e->N * 8, 8); int xi = B_RAW(pl, R_IN, F_DBL, 0, e->N * 8, 8); pl->b[xi].any_finite = (int)(rng_u64(r) & 1); pl->b[xi].fillarg = 20; pl->d[0] = ldexp(1.0, 1 + (int)(rng_u64(r) % 16)); }
+KCALL(rnx_div_ref, rnx_divide_by_m_ref(e->N, pl->d[0], p[0], p[1])) KCALL(rnx_div_avx, rnx_divide_by_m_avx(e->N, pl->d[0], p[0], p[1]))
 KCALL(znx_rotate, znx_rotate_i64(e->N, pl->s[0], p[0], p[1])) KCALL(rnx_rotate, rnx_rotate_f64(e->N, pl->s[0], p[0], p[1]))
 KCALL(znx_rotate_ip, znx_rotate_inplace_i64(e->N, pl->s[0], p[0])) KCALL(rnx_rotate_ip, rnx_rotate_inplace_f64(e->N, pl->s[0], p[0]))
 KCALL(znx_auto, znx_automorphism_i64(e->N, pl->s[0] | 1, p[0], p[1])) KCALL(rnx_auto, rnx_automorphism_f64(e->N, pl->s[0] | 1, p[0], p[1]))
@@ -1181,7 +1192,7 @@ const opdef_t OPS[] = {
     {"znx_sub_i64_ref", OPF_KERNEL, plan_k3, call_znx_sub_ref}, {"znx_sub_i64_avx", OPF_KERNEL | OPF_AVX, plan_k3, call_znx_sub_avx, "znx_sub_i64_ref"},
     {"znx_negate_i64_ref", OPF_KERNEL, plan_k2, call_znx_neg_ref}, {"znx_negate_i64_avx", OPF_KERNEL | OPF_AVX, plan_k2, call_znx_neg_avx, "znx_negate_i64_ref"},
     {"znx_copy_i64_ref", OPF_KERNEL, plan_k2, call_znx_copy_ref}, {"znx_zero_i64_ref", OPF_KERNEL, plan_k2, call_znx_zero_ref},
-    {"rnx_divide_by_m_ref", OPF_KERNEL, plan_k2d, call_rnx_div_ref}, {"rnx_divide_by_m_avx", OPF_KERNEL | OPF_AVX, plan_k2d, call_rnx_div_avx, "rnx_divide_by_m_ref"},
+    {"rnx_divide_by_m_ref", OPF_KERNEL, plan_k2d_div, call_rnx_div_ref}, {"rnx_divide_by_m_avx", OPF_KERNEL | OPF_AVX, plan_k2d_div, call_rnx_div_avx, "rnx_divide_by_m_ref"},
     {"znx_rotate_i64", OPF_KERNEL, plan_k2, call_znx_rotate}, {"rnx_rotate_f64", OPF_KERNEL, plan_k2d, call_rnx_rotate},
     {"znx_rotate_inplace_i64", OPF_KERNEL, plan_k1, call_znx_rotate_ip}, {"rnx_rotate_inplace_f64", OPF_KERNEL, plan_k1d, call_rnx_rotate_ip},
     {"znx_automorphism_i64", OPF_KERNEL, plan_k2, call_znx_auto}, {"rnx_automorphism_f64", OPF_KERNEL, plan_k2d, call_rnx_auto},
